@@ -51,16 +51,4 @@ pub fn attrs_contain(attrs: &Vec<Attribute>, name: &LocalName) -> (r: bool)
     ensures r == (exists|i: int| 0 <= i < attrs@.len() && (#[trigger] attrs@[i]).name.local@ == name@),
 { unimplemented!() }
 
-// ---- named character references: the table content is TRUSTED (only copy is in-repo) ----
-/// value of a complete entity name (without '&'), e.g. "amp;" or "amp"
-pub uninterp spec fn ent_value(name: Seq<char>) -> Option<(u32, u32)>;
-/// `name` is a prefix (possibly complete) of some entity name
-pub uninterp spec fn ent_prefix(name: Seq<char>) -> bool;
-/// R19 model of `NAMED_ENTITIES.get(..)` (ASSUMED; re-validated by enumeration of the generated table)
-#[verifier::external_body]
-pub fn named_entities_get(name: &str) -> (r: Option<(u32, u32)>)
-    ensures
-        !ent_prefix(name@) ==> r.is_none(),
-        ent_prefix(name@) && ent_value(name@).is_none() ==> r.is_some() && r.unwrap().0 == 0,
-        ent_value(name@).is_some() ==> r.is_some() && r.unwrap() == ent_value(name@).unwrap() && r.unwrap().0 != 0,
-{ unimplemented!() }
+// (named character references: ent_value / ent_prefix / named_entities_get are in enttab.prelude.rs)
